@@ -180,3 +180,66 @@ Proof.
   - destruct (is_null (cs_lb (nths t j))); [discriminate|reflexivity].
   - intros k Hk Ho. apply P; [lia|unfold occ; rewrite Ho; reflexivity].
 Qed.
+
+(* ------------------------------------------------------------------ the C loop against the model DirtyAllDefs.quit_n *)
+(* A table of the model (DirtyAllDefs.ntable: Some nbuf / None per slot) describes the C table t from slot i on when the occupied slots
+   are the same, and the answers sv are those of an environment in which a buffer WITHOUT a name cannot be saved (open("") fails).
+   The environment's answers for the slots that have a name, in slot order, are the schedule the model consumes. *)
+From NV Require DirtyDefs DirtyAllDefs.
+
+Fixpoint tab_rel (t : list cslot) (sv : nat -> val) (i : nat) (tab : DirtyAllDefs.ntable) : Prop :=
+  match tab with
+  | [] => True
+  | None :: r => is_null (cs_lb (nths t i)) = true /\ tab_rel t sv (S i) r
+  | Some f :: r => is_null (cs_lb (nths t i)) = false /\ (DirtyDefs.nname f = None -> is_null (sv i) = false) /\ tab_rel t sv (S i) r
+  end.
+Fixpoint sch_of (sv : nat -> val) (i : nat) (tab : DirtyAllDefs.ntable) : list bool :=
+  match tab with
+  | [] => []
+  | None :: r => sch_of sv (S i) r
+  | Some f :: r => match DirtyDefs.nname f with
+                   | None => sch_of sv (S i) r
+                   | Some _ => is_null (sv i) :: sch_of sv (S i) r
+                   end
+  end.
+
+(* the loop of the C text stores xquit (qa = None) exactly when the model's loop exits; and the slot at which the C loop stops is the
+   number of slots the model's loop has put behind it *)
+Lemma qa_is_model t sv bang : forall tab i pre calls, tab_rel t sv i tab ->
+  match qa t sv (length tab) i with
+  | None => snd (fst (fst (DirtyAllDefs.quit_n true bang pre tab (sch_of sv i tab) calls))) = true
+  | Some j => snd (fst (fst (DirtyAllDefs.quit_n true bang pre tab (sch_of sv i tab) calls))) = false
+  end.
+Proof.
+  induction tab as [|[f|] r IH]; intros i pre calls R; cbn [length qa DirtyAllDefs.quit_n sch_of negb andb].
+  - reflexivity.
+  - destruct R as (O & U & R). rewrite O. cbn [negb andb].
+    destruct (DirtyDefs.nname f) as [p|] eqn:Nm.
+    + cbn [DirtyAllDefs.next_ok]. destruct (is_null (sv i)) eqn:Ns; cbn [negb].
+      * apply IH. exact R.
+      * reflexivity.
+    + rewrite (U eq_refl). cbn [negb]. reflexivity.
+  - destruct R as (O & R). rewrite O. cbn [negb andb]. apply IH. exact R.
+Qed.
+
+Theorem tr_quit_all_is_model t sv bang tab : length tab = 16%nat -> tab_rel t sv 0 tab ->
+  (qa t sv 16 0 = None <-> snd (fst (fst (DirtyAllDefs.quit_n true bang [] tab (sch_of sv 0 tab) []))) = true).
+Proof.
+  intros L R. pose proof (qa_is_model t sv bang tab 0%nat [] [] R) as H. rewrite L in H.
+  destruct (qa t sv 16 0) as [j|]; split; intro X; try reflexivity; try exact H; congruence.
+Qed.
+
+(* so, for the C text: if the `a` loop of ec_quit stores xquit -- every lbuf_save answered NULL -- in an environment that cannot save a
+   buffer without a name, then (DirtyAllProps.xa_every_slot_saved) every buffer of the table has a name and its file holds its text *)
+From NV Require DirtyProps DirtyAllProps.
+Theorem tr_quit_all_exit_sound t sv bang tab : length tab = 16%nat -> tab_rel t sv 0 tab ->
+  Forall DirtyProps.NInv (DirtyAllDefs.noccupied tab) -> qa t sv 16 0 = None ->
+  Forall (fun f => DirtyDefs.nname f <> None) (DirtyAllDefs.noccupied tab) /\
+  let t' := fst (fst (fst (DirtyAllDefs.quit_n true bang [] tab (sch_of sv 0 tab) []))) in
+  Forall DirtyAllProps.good (DirtyAllDefs.noccupied t') /\
+  map DirtyAllProps.ntext (DirtyAllDefs.noccupied t') = map DirtyAllProps.ntext (DirtyAllDefs.noccupied tab).
+Proof.
+  intros L R Inv Q. apply (proj1 (tr_quit_all_is_model t sv bang tab L R)) in Q.
+  destruct (DirtyAllDefs.quit_n true bang [] tab (sch_of sv 0 tab) []) as [[[t' q] cl] s'] eqn:E. cbn [fst snd] in *. subst q.
+  destruct (DirtyAllProps.xa_every_slot_saved bang tab _ t' cl s' Inv E) as (_ & F & G & T & _). auto.
+Qed.
